@@ -6,10 +6,16 @@ import CoapVerif.Lemmas.Conserve
 C06 — the retransmission queue: every pending message is (re)transmitted on the RFC 7252 §4.2 schedule and
 ends in exactly one outcome.
 
-  S = Coap.Spec.SQ          (absolute deadlines, ordered; CoapVerif/Spec/SendQueue.lean)
-  M = Coap.SQ / Coap.Msg    (delta-time queue of src/coap_net.c, message layer; CoapVerif/Model/*.lean)
+  S = Coap.Spec.SQ / Coap.Timer  (absolute deadlines, ordered; timer system; CoapVerif/Spec/SendQueue.lean, Timer.lean)
+  M = Coap.SQ / Coap.Msg         (delta-time queue of src/coap_net.c, message layer; CoapVerif/Model/*.lean)
 
-Property theorems only; helper lemmas live in CoapVerif/Lemmas/SendQueue.lean.
+Sections: (1) queue abstraction, (2) coap_calc_timeout, (3) returned wait, (4) steps of coap_retransmit and the due
+loop, one message end to end, (5) S-level schedule / outcomes, (6) exact simulation M ⊑ S for any number of messages
+and sessions, (7) schedule, single outcome, never-sent-again, fixed PDU/timeout, due-fires on M for the whole C06
+alphabet including the NSTART gate.
+
+Property theorems only; helper lemmas live in CoapVerif/Lemmas/SendQueue.lean (queue, S), TimerSim.lean (simulation),
+SchedInv.lean (schedule invariant on M), Conserve.lean (conservation on M).
 -/
 namespace Coap.C06
 open Coap Coap.SQ
@@ -313,16 +319,18 @@ theorem due_head_retransmitted (l : L) (hd : Node) (r : List Node) (hn : l.q.nod
 
 /-! ## M level: one confirmable message on an idle endpoint runs the whole schedule
 
-The S-level theorems of section (5) (`retransmit_schedule`, `single_outcome`, …) hold for every event list with any
-number of messages.  Their transfer to the code model M is proved operation by operation (`queue_abs_invariant`,
-`enqueue_commutes`, `retransmit_step`, `giveup_step`, `due_head_retransmitted`, `no_early_retransmit`,
-`base_le_now_invariant`) and, end to end, for ONE message on an otherwise idle endpoint below — hence `_partial`.
+Closed forms (exact output lists) for ONE message on an otherwise idle endpoint.  `m_retransmit_schedule_partial` was
+the stand-in for the general M-level statement while that was open (hence its name, kept for reference):
 
-Full intended M-level statement, not proved as one theorem (it is what T2 compares on every run): for every
-`Msg.run` from `init` whose clock is monotone and punctual, with message ids unique per session, sessions
-established throughout and parameters in the no-wrap range, every `Out.tx t s mid k _` in the outputs satisfies
-`t = sched t0 T k` with `t0` the time of `Out.tx t0 s mid 0 _` and `T` the `coap_calc_timeout` value drawn at
-submission, `k ≤ MAX_RETRANSMIT`; and every accepted CON has exactly one of {ACK removal, NACK rst, NACK retries}. -/
+  for every `Msg.run` from `init` whose clock is monotone and punctual, sessions established throughout and
+  parameters in the no-wrap range, every `Out.tx t s mid k _` in the outputs satisfies `t = sched t0 T k` with `t0` the
+  time of `Out.tx t0 s mid 0 _` and `T` the `coap_calc_timeout` value drawn at submission, `k ≤ MAX_RETRANSMIT`; and
+  every accepted CON has exactly one of {ACK removal, NACK rst, NACK retries}.
+
+That general statement is now PROVED, for any number of messages and sessions sharing the queue, NSTART-delayed messages
+included: `m_schedule_all`, `m_pending_on_schedule`, `m_single_outcome`, `m_never_sent_again`, `m_due_fires`,
+`m_pdu_and_timeout_fixed` in section (7) (directly on M), and `m_refines_timer_partial` in section (6) (exact simulation
+M ⊑ S). -/
 open Coap.Msg in
 /-- **m_retransmit_schedule_partial** (the code model, not the S-level timer): on an idle endpoint (nothing queued, session
 established and open, no CON in flight, NSTART ≥ 1) a CON message is submitted at `t0`; `T` is what
@@ -576,13 +584,14 @@ theorem m_refines_timer_partial (now0 : Nat) (sess : List Msg.Sess) (evs : List 
   exact ⟨this.now, this.pend, this.outs⟩
 
 open Coap.Sim in
-/-- **m_schedule_all_partial** (`retransmit_schedule` lifted from S to M): in every in-scope run that is punctual
+/-- **m_schedule_via_timer_partial** (`retransmit_schedule` lifted from S to M THROUGH the simulation; the same
+conclusion is proved without the two extra scope conditions as `m_schedule_all` in section (7)): in every in-scope run that is punctual
 (`Punctual`: no I/O step, submission or arrival happens after the clock was moved past a pending deadline), for any
 number of messages and sessions sharing the queue: EVERY transmission `tx t s mid k con` M ever emits is a Confirmable,
 belongs to a `coap_send` of (s, mid) in the run with PRNG byte `r`, its first transmission `tx t0 s mid 0` is in the
 outputs, and `t = t0 + (2^k − 1)·T` where `T = coap_calc_timeout(session parameters, r)` is the value drawn at that
 submission — drawn ONCE: all retransmissions of the message use the same `T` —, and `k ≤ MAX_RETRANSMIT`. -/
-theorem m_schedule_all_partial (now0 : Nat) (sess : List Msg.Sess) (evs : List Msg.Ev)
+theorem m_schedule_via_timer_partial (now0 : Nat) (sess : List Msg.Sess) (evs : List Msg.Ev)
     (hs : ∀ se ∈ sess, SessOk se) (hin : RunIn (Msg.init now0 sess) evs) (hpu : Punctual (Msg.init now0 sess) evs) :
     ∀ t s mid k con, Msg.Out.tx t s mid k con ∈ (Msg.run (Msg.init now0 sess) evs).out →
       con = true ∧ ∃ t0 r, Msg.Ev.submit s true mid r ∈ evs ∧
@@ -603,64 +612,20 @@ theorem m_schedule_all_partial (now0 : Nat) (sess : List Msg.Sess) (evs : List M
   obtain ⟨⟨r, hsub, hT, hmx⟩, h0⟩ := hor.2 t s mid k t0 T mx hS
   exact ⟨hc, t0, r, hsub, obs_tx_S_to_M hr.outs h0, by rw [← hT]; exact hsch, by rw [← hmx]; exact hk⟩
 
-open Coap.Sim in
-/-- **m_pdu_and_timeout_fixed_partial** (byte identity / `T` drawn once, as an invariant): in every in-scope run, every
-node in the send queue — whatever has happened to it: any number of re-insertions by `coap_retransmit`, pops,
-removals and insertions of other messages — still carries exactly what its `coap_send` put there: the fields standing
-for the PDU (message id, token, type CON) are unchanged and the stored `timeout` is the value `coap_calc_timeout` drew
-at that submission (only `t` and `retransmit_cnt` ever change; the delay is always computed as `timeout << cnt`). -/
-theorem m_pdu_and_timeout_fixed_partial (now0 : Nat) (sess : List Msg.Sess) (evs : List Msg.Ev)
-    (hs : ∀ se ∈ sess, SessOk se) (hin : RunIn (Msg.init now0 sess) evs) :
-    ∀ n ∈ (Msg.run (Msg.init now0 sess) evs).q.nodes,
-      n.con = true ∧ n.tok = n.mid ∧ n.cnt ≤ (parOf sess n.sess).maxRtx ∧
-      ∃ r, Msg.Ev.submit n.sess true n.mid r ∈ evs ∧
-        n.timeout = calcTimeout (parOf sess n.sess).atI (parOf sess n.sess).atF (parOf sess n.sess).arfI
-          (parOf sess n.sess).arfF r := by
-  intro n hn
-  have hi := (run_sim (P := fun s mid T => ∃ r, Msg.Ev.submit s true mid r ∈ evs ∧
-      T = calcTimeout (parOf sess s).atI (parOf sess s).atF (parOf sess s).arfI (parOf sess s).arfF r)
-    (parOk_of sess hs) evs _ (Timer.init now0)
-    (inv_init _ now0 sess hs) (rel_init _ now0 sess) hin (fun s mid r h => ⟨r, h, rfl⟩)).1
-  obtain ⟨hcon, htok, _, hcnt, _, hP⟩ := hi.nodes n hn
-  exact ⟨hcon, htok, hcnt, hP⟩
-
-open Coap.Sim in
-/-- **m_due_fires_partial** (`due_fires` lifted): in every in-scope run, after `coap_io_prepare_io` no pending message
-of any session is due — each due one has been retransmitted (and re-armed strictly later) or concluded. -/
-theorem m_due_fires_partial (now0 : Nat) (sess : List Msg.Sess) (evs : List Msg.Ev)
-    (hs : ∀ se ∈ sess, SessOk se) (hin : RunIn (Msg.init now0 sess) evs) :
-    let l := Msg.run (Msg.init now0 sess) evs
-    ∀ e ∈ abs (Msg.prepareCore l).1.q, (Msg.prepareCore l).1.now < e.deadline := by
-  intro l e he
-  obtain ⟨hi, hr, _⟩ := run_sim (P := fun _ _ _ => True) (parOk_of sess hs) evs _ (Timer.init now0)
-    (inv_init _ now0 sess hs) (rel_init _ now0 sess) hin (fun _ _ _ _ => trivial)
-  have hnd := (tick_sim (parOk_of sess hs) _ _ hi hr).2.2
-  rw [← Msg.prepareCore_fst] at hnd
-  rw [nothingDue_iff] at hnd
-  generalize (Msg.prepareCore l).1 = l' at *
-  rcases l' with ⟨now, ⟨base, nodes⟩, ss, out⟩
-  rcases nodes with _ | ⟨h, rest⟩
-  · simp [abs, absFrom] at he
-  · have h1 := hnd h rest rfl
-    simp only [abs, absFrom, List.mem_cons] at he
-    simp only [] at h1 ⊢
-    rcases he with rfl | he
-    · exact h1
-    · have := absFrom_ge _ _ e he; omega
-
 /-- witness run: two sessions sharing the send queue (NSTART 1 each), T = 2000 and T = 3000 ticks -/
 def mevs : List Msg.Ev :=
   [.submit 0 true 1 0, .setNow 500, .submit 1 true 7 255, .setNow 2000, .prepare, .setNow 3500, .prepare,
    .rxAck 1 7, .setNow 6000, .prepare, .setNow 7000, .submit 1 true 8 128, .rxRst 0 1, .setNow 9500, .prepare]
 
 open Coap.Sim in
-/-- **m_single_outcome_partial** (`single_outcome` lifted from S to M — conservation law, every in-scope event list,
+/-- **m_single_outcome_via_timer_partial** (`single_outcome` lifted from S to M THROUGH the simulation; the full
+version, delay queue included, is `m_single_outcome` in section (7) — conservation law, every in-scope event list,
 punctual or not, any number of messages and sessions): for every (session, mid), the number of `coap_send` calls equals
 the number of outcome NACK-handler calls (TOO_MANY_RETRIES or RST, carrying the sent PDU) plus the number of silent
 completions (an arriving ACK that found the message in the send queue) plus the number of nodes still in the send
 queue.  So a message id submitted once is — at every moment — exactly one of: pending, completed by the ACK, or
 reported by ONE NACK; it is never concluded twice and never lost. -/
-theorem m_single_outcome_partial (now0 : Nat) (sess : List Msg.Sess) (evs : List Msg.Ev)
+theorem m_single_outcome_via_timer_partial (now0 : Nat) (sess : List Msg.Sess) (evs : List Msg.Ev)
     (hs : ∀ se ∈ sess, SessOk se) (hin : RunIn (Msg.init now0 sess) evs) (s mid : Nat) :
     subC s mid evs =
       nackC s mid (Msg.run (Msg.init now0 sess) evs).out + ackC s mid (Msg.init now0 sess) evs +
@@ -676,7 +641,7 @@ theorem m_single_outcome_partial (now0 : Nat) (sess : List Msg.Sess) (evs : List
   exact hso
 
 open Coap.Sim in
-/-- non-vacuity / reading of `m_single_outcome_partial` on the witness run: message (0,1) — one send, one RST NACK;
+/-- non-vacuity / reading of `m_single_outcome_via_timer_partial` on the witness run: message (0,1) — one send, one RST NACK;
 message (1,7) — one send, silently completed by its ACK; message (1,8) — one send, still pending -/
 example : subC 0 1 mevs = 1 ∧ nackC 0 1 (Msg.run (Msg.init 0 [{}, {}]) mevs).out = 1 ∧
     ackC 0 1 (Msg.init 0 [{}, {}]) mevs = 0 ∧ pendC 0 1 (Msg.run (Msg.init 0 [{}, {}]) mevs).q.nodes = 0 ∧
@@ -685,33 +650,11 @@ example : subC 0 1 mevs = 1 ∧ nackC 0 1 (Msg.run (Msg.init 0 [{}, {}]) mevs).o
     subC 1 8 mevs = 1 ∧ pendC 1 8 (Msg.run (Msg.init 0 [{}, {}]) mevs).q.nodes = 1 := by decide
 
 open Coap.Sim in
-/-- **m_never_sent_again_partial** (`no_tx_without_pending` + conservation, lifted): split any in-scope run at any point
-at which no node of (session, mid) is in the send queue — i.e. by `m_single_outcome_partial` every `coap_send` of it
-so far has had its ONE outcome (ACK, NACK RST, NACK TOO_MANY_RETRIES).  If the rest of the run does not submit
-(session, mid) again, then the number of transmissions of (session, mid) never grows: it is never sent again, whatever
-else happens on this or any other session, and it never re-enters the queue. -/
-theorem m_never_sent_again_partial (now0 : Nat) (sess : List Msg.Sess) (evs1 evs2 : List Msg.Ev)
-    (hs : ∀ se ∈ sess, SessOk se) (hin : RunIn (Msg.init now0 sess) (evs1 ++ evs2)) (s mid : Nat)
-    (h0 : pendC s mid (Msg.run (Msg.init now0 sess) evs1).q.nodes = 0) (h2 : subC s mid evs2 = 0) :
-    txC s mid (Msg.run (Msg.init now0 sess) (evs1 ++ evs2)).out = txC s mid (Msg.run (Msg.init now0 sess) evs1).out ∧
-    pendC s mid (Msg.run (Msg.init now0 sess) (evs1 ++ evs2)).q.nodes = 0 := by
-  have hp := parOk_of sess hs
-  rw [runIn_append] at hin
-  obtain ⟨hi, hr, _⟩ := run_sim (P := fun _ _ _ => True) hp evs1 _ (Timer.init now0)
-    (inv_init _ now0 sess hs) (rel_init _ now0 sess) hin.1 (fun _ _ _ _ => trivial)
-  have := quiet_sim hp s mid evs2 _ _ hi hr hin.2 (fun _ _ _ _ => trivial) h0 h2
-  have e : Msg.run (Msg.init now0 sess) (evs1 ++ evs2) = Msg.run (Msg.run (Msg.init now0 sess) evs1) evs2 := by
-    simp [Msg.run, List.foldl_append]
-  rw [e]
-  exact this
-
-open Coap.Sim in
-/-- non-vacuity of `m_never_sent_again_partial`: the witness run split after the ACK of message (1,7): it was sent
-twice (first transmission + one retransmission) before, and still twice at the end -/
-example : RunIn (Msg.init 0 [{}, {}]) (mevs.take 8 ++ mevs.drop 8) ∧
-    pendC 1 7 (Msg.run (Msg.init 0 [{}, {}]) (mevs.take 8)).q.nodes = 0 ∧ subC 1 7 (mevs.drop 8) = 0 ∧
-    txC 1 7 (Msg.run (Msg.init 0 [{}, {}]) (mevs.take 8)).out = 2 ∧
-    txC 1 7 (Msg.run (Msg.init 0 [{}, {}]) mevs).out = 2 := by decide
+/-- non-vacuity of `m_refines_timer_from_partial`: the initial state with two default sessions satisfies `ParOk`,
+`Inv` and `Rel` -/
+example : ParOk (parOf [{}, {}]) ∧ Inv (parOf [{}, {}]) (fun _ _ _ => True) (Msg.init 0 [{}, {}]) ∧
+    Rel (mxOf (parOf [{}, {}])) (Msg.init 0 [{}, {}]) (Timer.init 0) :=
+  ⟨parOk_of _ (by decide), inv_init _ 0 _ (by decide), rel_init _ 0 _⟩
 
 /-! ### (3') the returned wait against every pending deadline of every session -/
 open Coap.Msg in
@@ -726,8 +669,8 @@ theorem wait_le_every_deadline (l : L) : let r := prepareCore l
   Coap.Sim.prepareCore_wait_all l
 
 open Coap.Sim in
-/-- non-vacuity of the hypotheses of `m_refines_timer_partial`, `m_schedule_all_partial`,
-`m_pdu_and_timeout_fixed_partial`, `m_due_fires_partial`: the witness run is in scope and punctual; two messages of
+/-- non-vacuity of the hypotheses of `m_refines_timer_partial`, `m_schedule_via_timer_partial`,
+`m_single_outcome_via_timer_partial`: the witness run is in scope and punctual; two messages of
 two sessions interleave in the queue, one is ACKed, one is RST; a third is retransmitted -/
 example : (∀ se ∈ [({} : Msg.Sess), {}], SessOk se) ∧ RunIn (Msg.init 0 [{}, {}]) mevs ∧
     Punctual (Msg.init 0 [{}, {}]) mevs ∧
